@@ -209,6 +209,7 @@ def rand_program(cirq, cg, sympy, rng, depth=0):
 
 DROPPED_SUBCIRCUIT_TAGS: list = []
 NEGATIVE_REPS_WITH_IDS: list = []
+INTERNAL_TUPLE_ARGS: list = []
 
 
 def f32_close(a, b):
@@ -247,6 +248,12 @@ def ops_equivalent(cirq, sympy, a, b, path=''):
             return f'{path}: circuit-operation attributes differ: {ua!r} vs {ub!r}'
         return circuits_equivalent(cirq, sympy, ua.circuit, ub.circuit, path + '/sub')
     ga, gb = ua.gate, ub.gate
+    if type(ga).__name__ == 'InternalGate' and type(gb).__name__ == 'InternalGate':
+        # numerical tuples are written as repeated values and come back as lists (reported separately); everything else must agree
+        norm = lambda d: {k: (list(v) if isinstance(v, tuple) and v and all(isinstance(x, (int, float)) for x in v) else v) for k, v in d.items()}
+        if (ga.gate_name, ga.gate_module, cirq.num_qubits(ga)) == (gb.gate_name, gb.gate_module, cirq.num_qubits(gb)) and ga.gate_args != gb.gate_args and norm(ga.gate_args) == norm(gb.gate_args):
+            INTERNAL_TUPLE_ARGS.append(repr(ga)[:300])
+            return None
     if cirq.is_measurement(ua) or cirq.is_measurement(ub):
         if not (isinstance(ga, cirq.MeasurementGate) and isinstance(gb, cirq.MeasurementGate) and ga.key == gb.key and ga.full_invert_mask() == gb.full_invert_mask()):
             return f'{path}: measurement {ua!r} vs {ub!r}'
@@ -302,6 +309,7 @@ def check_programs(ctx, cirq, cg, sympy, n):
         cirq.Circuit(cirq.CircuitOperation(cirq.FrozenCircuit(cirq.X(gq), cirq.measure(gq, key='m')), repetitions=2, repetition_ids=['a', 'b'], use_repetition_ids=True)),
         cirq.Circuit(cirq.CircuitOperation(cirq.FrozenCircuit(cirq.X(gq), cirq.measure(gq, key='m')), repetitions=2, use_repetition_ids=False)),
         cirq.Circuit(cirq.depolarize(0.0).on(gq)),
+        cirq.Circuit(cg.InternalGate(gate_name='g', gate_module='m', num_qubits=1, t=(1, 2, 3), u=(0.5, 1.5), names=('a', 'b'), mixed=(1, 'a')).on(gq)),
         cirq.Circuit(cirq.measure(gq, cirq.GridQubit(0, 1), key='m'), cirq.X(gq).with_classical_controls(cirq.BitMaskKeyCondition('m', index=-1, target_value=2**24 + 1, equal_target=True, bitmask=2**24 + 1))),
         cirq.Circuit(cirq.Z(gq).with_tags('a', cg.PhysicalZTag()), (cirq.Z(gq) ** 0.5).with_tags(cg.PhysicalZTag(), 'b'), cirq.X(gq).with_tags('x', cg.CalibrationTag('t'), 'y')),
         cirq.Circuit(cirq.X(cirq.NamedQubit('3')), cirq.CZ(cirq.NamedQubit('1_2'), cirq.NamedQubit('plain'))),
@@ -341,7 +349,11 @@ def check_programs(ctx, cirq, cg, sympy, n):
             ctx.count('gate', type(op.untagged.gate).__name__ if op.untagged.gate is not None else type(op.untagged).__name__)
         DROPPED_SUBCIRCUIT_TAGS.clear()
         NEGATIVE_REPS_WITH_IDS.clear()
+        INTERNAL_TUPLE_ARGS.clear()
         diff = circuits_equivalent(cirq, sympy, circuit, back)
+        if INTERNAL_TUPLE_ARGS:
+            ctx.report_witness('program:roundtrip:internal-gate-tuple', 'a numerical tuple among the arguments of an InternalGate comes back as a list (the gate is then unequal to the original and unhashable)',
+                               {'lines': [{'circuit': repr(circuit)}], 'impl_out': ['list'], 'spec_out': INTERNAL_TUPLE_ARGS[:2], 'theorem_or_correspondence': 'program round trip'})
         if NEGATIVE_REPS_WITH_IDS:
             ctx.report_witness('program:roundtrip:negative-repetitions-with-ids', 'a CircuitOperation with negative repetitions and explicit repetition ids comes back with positive repetitions',
                                {'lines': [{'circuit': repr(circuit)}], 'impl_out': ['repetitions > 0'], 'spec_out': NEGATIVE_REPS_WITH_IDS[:2], 'theorem_or_correspondence': 'program round trip'})
@@ -367,7 +379,7 @@ def check_programs(ctx, cirq, cg, sympy, n):
             ctx.report_witness('program:deterministic', 'serializing the same circuit twice gives different messages', {'lines': [{'circuit': repr(circuit)}], 'impl_out': ['...'], 'spec_out': ['...'],
                                                                                                                    'theorem_or_correspondence': 'serialize function'})
         # multi-program form
-        if i % 5 == 0:
+        if i % 5 == 0 and i >= len(corpus):   # (the corpus holds the witnesses of recorded findings: they are reported once, by the single-program form)
             c2, _ = rand_program(cirq, cg, sympy, rng)
             try:
                 mp = ser.serialize_multi_program([circuit, c2])
